@@ -148,6 +148,10 @@ class ResourceScenario(ScenarioData):
                     # index would wrap around to the end of the table) or end after it.
                     start_idx = max(0, self.project.dateToIdx(leave.interval.start))
                     end_idx = max(0, self.project.dateToIdx(leave.interval.end))
+                    # A leave that ends inside a slot still covers part of that slot
+                    end_slot_start = self.project.idxToDate(end_idx)
+                    if end_slot_start is not None and end_slot_start < leave.interval.end:
+                        end_idx += 1
                     for i in range(start_idx, min(end_idx, size)):
                         sb = self.scoreboard[i]
                         val = 0 if sb is None else (sb & 2)
